@@ -7,7 +7,9 @@ ASSUMPTIONS = CR_ASSUMPTIONS = [
     "the generator is driven through a scripted subclass of cryptorandom.SHA256 (harness/tape.py): requests are answered lazily and logged; the same answers are replayed for the keep_dist twin",
     "data are small integers times the product of the group sizes times a power of two (optionally plus a large offset), so every named float statistic is exact in binary64",
     "SHA-256 / Mersenne-Twister output is assumed uniform (real-seed runs check reproducibility and the p-value assembly only)"]
-ALLOWED = ['observed-stat', 'observed-not-data', 'p-not-from-dist', 'wrong-rearrangement', 'call-count', 'inadmissible', 'group-sizes', 'double-eval', 'pair-guard', 'keepdist-differs']
+ALLOWED = ['observed-stat', 'observed-not-data', 'p-not-from-dist', 'wrong-rearrangement', 'call-count', 'inadmissible', 'group-sizes', 'double-eval', 'pair-guard', 'keepdist-differs',
+           # the binomial law of H needs every call to take its draws from the generator as its primitives define them, also after earlier calls
+           'irreproducible', 'draws-depend-on-data']
 FOCUS = None
 
 
